@@ -8,6 +8,53 @@ def msg_cases(trip, tag, op='dec.dns'):
     m, b, r = trip
     return Case('%s %s' % (op, hx(b)), tag, exp=abs_msg_text(m))
 
+_SWEEP = None
+def sweep_rrs(types=None):
+    global _SWEEP
+    if _SWEEP is None: _SWEEP = boundary_sweep()
+    return [r for r in _SWEEP if types is None or r['ty'] in types]
+
+def sweep_msg(rr, with_q=True):
+    """the record in a small message; a question with the record's owner (or target) so that compression has something to do"""
+    qs = []
+    if with_q and rr['ty'] != OPT:
+        qs = [{'name': rr['name'], 'qtype': rr['ty'] if rr['ty'] < 65280 else 1, 'qclass': 1}]
+    m = msg_with([], qs=qs)
+    m['ar' if rr['ty'] == OPT else 'an'] = [rr]
+    return m
+
+def sweep_wire_cases(op, tag='sweep', types=None, exp=False, both_layouts=True):
+    """dec.dns / rt.dns of every sweep record, rendered uncompressed and fully compressed"""
+    cs = []
+    for rr in sweep_rrs(types):
+        m = sweep_msg(rr)
+        for comp in ((0.0, 1.0) if both_layouts else (1.0,)):
+            b, _ = render(m, Layout(random.Random(1), compress=comp, flipcase=0.0, pad_addr=0.0))
+            cs.append(Case('%s %s' % (op, hx(b)), tag, exp=abs_msg_text(m) if exp else None))
+    return cs
+
+def sweep_rr_wire_cases(tag='sweep', types=None):
+    cs = []
+    for rr in sweep_rrs(types):
+        r = Renderer(Layout(random.Random(1), compress=0.0, flipcase=0.0, pad_addr=0.0)); r.rr(rr)
+        cs.append(Case('dec.rr %s' % hx(bytes(r.out)), tag))
+    return cs
+
+def sweep_enc_rr_cases(tag='sweep', types=None, struct=False, embed=False):
+    cs = []
+    for rr in sweep_rrs(types):
+        cs.append(Case('enc.rr %s' % prr(rr), tag, exp=('RR', lower_text(prr(rr)))))
+        if struct: cs.append(Case('enc.struct %s' % prr(rr), tag))
+        if embed: cs.append(Case('enc.dns %s' % pmsg(msg_with([rr])), tag, exp=('EMBED', prr(rr))))
+    return cs
+
+def sweep_enc_dns_cases(tag='sweep', types=None):
+    cs = []
+    for rr in sweep_rrs(types):
+        m = sweep_msg(rr)
+        cs.append(Case('enc.dns %s' % pmsg(m), tag, exp=abs_msg_text(m)))
+    return cs
+
 def single_rr_cases(rng, n, types=None):
     """stand-alone records (dec.rr) in uncompressed layout"""
     cs = []
@@ -85,7 +132,7 @@ def high_offset_msg(rng, target_off):
                   {'ty': 15, 'name': (b'zzz',) + n[1:], 'ttl': 0, 'cls': 1, 'f': [10, (b'mx', b'ns') + n]}])
     return m
 
-def straddle_msg(target_off, labels=(b'aaaa', b'bbbb', b'cc', b'example'), newtype=False):
+def straddle_msg(target_off, labels=(b'aaaa', b'bbbb', b'cc', b'example'), newtype=False, later_newtype=False):
     """a multi-label name that starts at `target_off` (so that its later labels sit at and beyond 0x4000 when the
     offset is just below), followed by names that share each of its proper suffixes only"""
     n = tuple(labels)
@@ -102,6 +149,12 @@ def straddle_msg(target_off, labels=(b'aaaa', b'bbbb', b'cc', b'example'), newty
         rrs.append({'ty': 2, 'name': (b'v%d' % i,) + n[i:], 'ttl': 0, 'cls': 1, 'f': [(b'u%d' % i,) + n[i:]]})
         if newtype:
             rrs.append({'ty': 36, 'name': (b'k%d' % i,) + n[i:], 'ttl': 0, 'cls': 1, 'f': [5, (b'kx',) + n[i:]]})
+    if later_newtype:
+        # the straddling name is a registered one (owner); LATER records of the post-RFC-1035 types share its suffixes
+        for i in range(0, len(n)):
+            rrs.append({'ty': 33, 'name': (b'o',), 'ttl': 0, 'cls': 1, 'f': [1, 2, 3, (b'srv',) + n[i:]]})
+            rrs.append({'ty': 36, 'name': (b'o',), 'ttl': 0, 'cls': 1, 'f': [5, (b'kx',) + n[i:]]})
+            rrs.append({'ty': 39, 'name': (b'o',), 'ttl': 0, 'cls': 1, 'f': [n[i:]]})
     return msg_with(rrs)
 
 def nested_long_names(step=15, limit=255):
@@ -155,6 +208,8 @@ def C01(tier, rng):
     for b in pointer_graphs(sz(tier, 3, 4)):
         cs.append(Case('dec.name %s' % hx(b), 'graph'))
     cs += growth_straddle_cases('dec.dns', tier)
+    cs += sweep_wire_cases('dec.dns', both_layouts=False) + sweep_rr_wire_cases()
+    cs += header_count_cases() + label_length_octet_cases()
     if tier != 'thorough':
         return cs
     return c01_thorough_chunks(cs)
@@ -237,6 +292,45 @@ def neighbour_cases(fam, size, tier, rng):
             cs.append(Case('dec.rr %s' % hx(opt_rr([opt_option(8, x), opt_option(10, b'\1' * 8), opt_option(8, y)])), 'ecs-pair'))
     return cs
 
+def svcb_every_len_cases():
+    keys = [0, 1, 2, 3, 4, 5, 6, 7, 65534, 65535]
+    cs = []
+    # every value length 0..=40 for every kind, alone and followed by another parameter (window and RDLENGTH consistent:
+    # only the kind's own format can refuse the value)
+    for k in keys:
+        for n in range(0, 41):
+            body = bytes((7 * i + 1) % 251 for i in range(n))
+            alpn = (bytes([n - 1]) + body[:n - 1]) if n else b''
+            for bd in ((body, alpn) if k == 1 else (body,)):
+                cs.append(Case('dec.rr %s' % hx(svcb_rr(64, 1, b'\0', [pw(k, bd)])), 'every-len'))
+                if k < 65534:
+                    cs.append(Case('dec.rr %s' % hx(svcb_rr(65, 1, b'\0', [pw(k, bd), pw(65534, b'z')])), 'every-len'))
+    return cs
+
+def header_count_cases():
+    """section counts whose SUM passes 65,535 although each is a legal 16-bit value; on a bare header and on a small valid message"""
+    cs = []
+    combos = [(0xffff, 1, 0), (1, 0xffff, 0), (0, 1, 0xffff), (0x8000, 0x8000, 0), (0x8000, 0x7fff, 1), (0xffff, 0xffff, 0xffff), (0xffff, 0, 0),
+              (0x5555, 0x5555, 0x5556), (0, 0xffff, 0xffff), (0xfffe, 1, 1), (0x7fff, 0x7fff, 2)]
+    valid = bytes.fromhex('000181800001000100000000076578616d706c65036f72670000010001c00c000100010000003c00040a000001')
+    for an, ns, ar in combos:
+        for qd in (0, 1, 0xffff):
+            h = b'\0\1\x81\x80' + qd.to_bytes(2, 'big') + an.to_bytes(2, 'big') + ns.to_bytes(2, 'big') + ar.to_bytes(2, 'big')
+            cs.append(Case('dec.dns %s' % hx(h), 'count-sum'))
+            cs.append(Case('dec.dns %s' % hx(h + valid[12:]), 'count-sum'))
+    return cs
+
+def label_length_octet_cases():
+    """names whose length octet is 63, 64, 65, 100, 127, 128, 191 followed by that many valid octets (plus a pointer variant)"""
+    cs = []
+    for n in (62, 63, 64, 65, 100, 127, 128, 191):
+        w = bytes([n]) + b'a' * n + b'\0'
+        cs.append(Case('dec.name %s' % hx(w), 'label-octet'))
+        cs.append(Case('dec.dns %s' % hx(b'\0\0\0\0\0\1' + b'\0' * 6 + w + b'\0\1\0\1'), 'label-octet'))
+        w2 = b'\1x\0' + bytes([n]) + b'b' * n + b'\xc0\x00'
+        cs.append(Case('dec.question %s' % hx(w2[3:] + b'\0\1\0\1'), 'label-octet'))
+    return cs
+
 def addr_guard_cases():
     """address length 0..=family+2, prefix around the family size, cookie lengths 0..=64"""
     cs = []
@@ -261,6 +355,7 @@ def addr_guard_cases():
 
 def C02(tier, rng):
     cs = []
+    cs += sweep_wire_cases('rt.dns')
     trips = layouts(rng, sz(tier, 3000, 40000))
     for m, b, r in trips:
         cs.append(Case('rt.dns %s' % hx(b), 'valid'))
@@ -368,6 +463,8 @@ def C03(tier, rng):
     cs += single_rr_cases(rng, sz(tier, 2000, 20000))
     for fam, size in ((1, 4), (2, 16)):
         cs += neighbour_cases(fam, size, tier, rng)
+    cs += sweep_wire_cases('dec.dns') + sweep_rr_wire_cases()
+    cs += svcb_every_len_cases() + header_count_cases() + label_length_octet_cases()
     return cs
 
 def raw_rr(ty, cls, rdata, owner=b'\x01a\x00', ttl=7):
@@ -414,6 +511,7 @@ def dup_param_cases(rng):
 
 def C04(tier, rng):
     cs = []
+    cs += sweep_wire_cases('dec.dns', exp=True)
     trips = layouts(rng, sz(tier, 20000, 80000))
     cs += [msg_cases(t, 'layout') for t in trips]
     for m in boundary_msgs(rng):
@@ -470,6 +568,14 @@ def C04(tier, rng):
 
 def C09(tier, rng):
     cs = []
+    nb = {'ty': 1, 'name': (b'nb',), 'ttl': 1, 'cls': 1, 'f': [b'\xde\xad\xbe\xef']}
+    for rr in sweep_rrs():
+        m = msg_with([nb, rr, nb] if rr['ty'] != OPT else [nb])
+        if rr['ty'] == OPT: m['ar'] = [rr, nb]
+        b, r = render(m, Layout(random.Random(1), compress=0.0, flipcase=0.0, pad_addr=0.0))
+        for bb, tag in length_mutants(b, r, rng, None if tier == 'thorough' else 10):
+            cs.append(Case('dec.dns %s' % hx(bb), 'sweep-' + tag))
+    cs += svcb_every_len_cases() + header_count_cases()
     trips = layouts(rng, sz(tier, 2500, 12000), maxrr=3)
     for m, b, r in trips:
         cs.append(Case('dec.dns %s' % hx(b), 'valid', exp=abs_msg_text(m)))
